@@ -350,6 +350,84 @@ example :
       | .error _ => false) = true := by
   decide +kernel
 
+/-! ## ModelFeatures.__add__ is the union of the expanded spaces -/
+
+/-- For every pair of search spaces (any number of statements, wildcards in TRANSITS,
+    repeated statements, …) on which `+` does not raise: the result contains every atom of
+    both operands, and nothing but those and the documented defaults that `create` inserts
+    for a missing category. -/
+theorem add_atoms_sandwich (a b c : MF) (h : MF.add a b = .ok c) (hva : a.valid = true) (hvb : b.valid = true) :
+    (∀ x, x ∈ a.atoms ∨ x ∈ b.atoms → x ∈ c.atoms) ∧
+      (∀ x, x ∈ c.atoms → x ∈ a.atoms ∨ x ∈ b.atoms ∨ x ∈ defaultAtoms) := by
+  obtain ⟨A, E, L, T, P, hT, hP, hA, hE, hL, hc⟩ := add_unfold a b c h
+  have hm := add_components a b A E L T P hT hP hA hE hL hva hvb
+  constructor
+  · intro x hx
+    exact create_sup A E T P L c hc x ((hm x).mpr hx)
+  · intro x hx
+    rcases create_sub A E T P L c hc x hx with h' | h'
+    · rcases (hm x).mp h' with h'' | h''
+      · exact Or.inl h''
+      · exact Or.inr (Or.inl h'')
+    · exact Or.inr (Or.inr h')
+
+/-- `add_is_union` under the decidable side condition that one operand has every PK category
+    (which `create` establishes for every non-degenerate description): `atoms (a + b)` is exactly
+    `atoms a ∪ atoms b`. -/
+theorem add_is_union_partial (a b c : MF) (h : MF.add a b = .ok c) (hva : a.valid = true) (hvb : b.valid = true)
+    (hfull : a.full = true) : ∀ x, x ∈ c.atoms ↔ x ∈ a.atoms ∨ x ∈ b.atoms := by
+  obtain ⟨A, E, L, T, P, hT, hP, hA, hE, hL, hc⟩ := add_unfold a b c h
+  have hm := add_components a b A E L T P hT hP hA hE hL hva hvb
+  simp only [MF.full, Bool.and_eq_true, Bool.not_eq_true', List.isEmpty_eq_false_iff] at hfull
+  obtain ⟨⟨⟨⟨fa, fe⟩, fl⟩, ft⟩, fp⟩ := hfull
+  have hTne : T ≠ [] := by
+    rintro rfl
+    obtain ⟨x, hx⟩ := List.exists_mem_of_ne_nil _ ft
+    have hxa : x ∈ a.atoms := by simp [MF.atoms, hx]
+    have hxm := (hm x).mpr (Or.inl hxa)
+    simp only [List.mem_flatMap, Transits.atoms, List.mem_map] at hx
+    obtain ⟨_, _, c', _, d', _, rfl⟩ := hx
+    rw [mem_atoms_trans] at hxm
+    obtain ⟨_, ht, _⟩ := hxm
+    cases ht
+  have hPne : P ≠ [] := by
+    rintro rfl
+    obtain ⟨x, hx⟩ := List.exists_mem_of_ne_nil _ fp
+    have hxa : x ∈ a.atoms := by simp [MF.atoms, hx]
+    have hxm := (hm x).mpr (Or.inl hxa)
+    simp only [List.mem_flatMap, Peripherals.atoms, List.mem_map] at hx
+    obtain ⟨_, _, c', _, d', _, rfl⟩ := hx
+    rw [mem_atoms_peri] at hxm
+    obtain ⟨_, ht, _⟩ := hxm
+    cases ht
+  have := create_full A E T P L c hc (optAdd_isSome _ _ _ _ hA fa) (optAdd_isSome _ _ _ _ hE fe)
+    (optAdd_isSome _ _ _ _ hL fl) hTne hPne
+  subst this
+  exact hm
+
+/-- Without the side condition the full statement is false: `create` adds defaults. -/
+theorem add_is_union_witness :
+    let a : MF := ⟨some (.names ["FO"]), none, [], [], none⟩
+    ∃ c, MF.add a a = .ok c ∧ Atom.elim "FO" ∈ c.atoms ∧ Atom.elim "FO" ∉ a.atoms := by
+  refine ⟨⟨some (.names ["FO"]), some (.names ["FO"]), [⟨[0], .names ["DEPOT"]⟩], [⟨[0], .names ["DRUG"]⟩], some (.names ["OFF"])⟩, ?_⟩
+  decide +kernel
+
+/-- non-vacuity of `add_is_union_partial`: a parsed description with ranges, both depots through
+    the wildcard and two peripheral kinds satisfies the side conditions and `+` does not raise -/
+example :
+    let a := mfOf [.absorption (.names ["FO", "ZO"]), .transits ⟨[0, 1, 3], .wild⟩,
+                   .peripherals ⟨[0, 1], .names ["DRUG", "MET"]⟩]
+    let b := mfOf [.elimination .wild, .transits ⟨[1], .names ["NODEPOT"]⟩, .transits ⟨[4], .names ["DEPOT"]⟩]
+    a.valid = true ∧ b.valid = true ∧ a.full = true ∧ (MF.add a b).toOption.isSome = true := by
+  decide +kernel
+
+/-- `_add_sub_transits(add=False)` (used by `-`): the (count, depot) atoms of the result are the
+    set difference, for all transit statements (wildcards, overlapping statements, …). -/
+theorem sub_transits_is_difference (a b : MF) (ts : List Transits) (h : addSubTransits a b false = .ok ts)
+    (c : Nat) (k : String) :
+    Atom.trans c k ∈ ts.flatMap Transits.atoms ↔ Atom.trans c k ∈ a.atoms ∧ Atom.trans c k ∉ b.atoms := by
+  rw [addSubTransits_sub a b ts h c k, mem_atoms_trans, mem_atoms_trans]
+
 /-! ## modelsearch: `exhaustive_stepwise` -/
 
 /-- `exhaustive_stepwise` creates exactly the non-empty root paths every step of which is accepted
